@@ -773,9 +773,21 @@ def split_blocks(iface, plan, decls):
     return out
 
 
-def needed_namespaces(decls_of_ns):
-    """namespace indexes the declarations of one namespace refer to"""
+def needed_namespaces(decls_of_ns, all_decls=None):
+    """namespace indexes the declarations of one namespace refer to.  For an element reference this includes
+    the namespace of the referenced declaration's TYPE: XSD does not require that import, but suds copies the
+    target's type= into the referencing element and looks it up in the REFERENCING schema, which only sees it if
+    an import chain happens to have carried it there (it does not under an import cycle: see the report,
+    proposed finding C07:ref-target-type-looked-up-in-referencing-schema); the renderer stays clear of that
+    class by importing that namespace as well, which is always legal."""
     found = set()
+
+    def target_type_ns(ref):
+        if all_decls is None:
+            return
+        for key, d in all_decls[ref[0]]:
+            if isinstance(d, CE) and d.name == ref[1] and d.tref is not None and d.tref[0] == "n":
+                found.add(d.tref[1])
 
     def tr(t):
         if t is not None and t[0] == "n":
@@ -785,6 +797,7 @@ def needed_namespaces(decls_of_ns):
         if isinstance(p, CE):
             if p.ref is not None:
                 found.add(p.ref[0])
+                target_type_ns(p.ref)
             tr(p.tref)
             if p.anon is not None:
                 typ(p.anon)
@@ -819,7 +832,7 @@ def needed_namespaces(decls_of_ns):
 def imports_of(iface, plan, decls, ns):
     nns = len(iface.S.namespaces)
     aux = nns - 1
-    need = needed_namespaces(decls[ns]) - {ns}
+    need = needed_namespaces(decls[ns], decls) - {ns}
     if plan.imports == "all":
         return [i for i in range(nns) if i != ns]
     if plan.imports == "needed":
@@ -977,6 +990,32 @@ class Rendered(tuple):
 # ---------------------------------------------------------------------------
 # what a client exposes, canonicalised
 # ---------------------------------------------------------------------------
+
+QNAME_ATTRS = ("type", "ref", "base", "element", "message", "binding")
+
+
+def rendering_selfcheck(wsdl):
+    """A rendering must be namespace-well-formed XML whose QName-valued attributes all resolve in expat's
+    in-scope map of the element that carries them.  -> None, or what is wrong (a HARNESS bug, never a verdict)."""
+    from . import sudsutil as U
+    try:
+        root = U.expat_parse(wsdl)
+    except Exception as e:  # noqa
+        return "not well-formed: %r" % (e,)
+    stack = [root]
+    while stack:
+        n = stack.pop()
+        for (ans, aname), val in n.attrs.items():
+            if ans is None and aname in QNAME_ATTRS and (n.ns in (XSD_NS, WSDL_NS)):
+                try:
+                    uri, _ = n.resolve_qname(val)
+                except KeyError:
+                    return "<%s %s=%r>: prefix not declared in scope" % (n.name, aname, val)
+                if ":" not in val and not uri:
+                    return "<%s %s=%r>: unprefixed reference without a default namespace" % (n.name, aname, val)
+        stack.extend(n.elements())
+    return None
+
 
 def load_client(wsdl, tap=None):
     from . import sudsutil as U
@@ -1934,6 +1973,7 @@ def run_render(ck, unproved):
     reps = 2 if ck.tier == "quick" else 4
     W, B, R, PC, FC, EC, SC, ST, WL, MC = [], [], [], [], [], [], [], [], [], []       # (coq case, meta)
     deviations = {}                                     # finding key -> first payload
+    selfcheck_failures = []
     feature_count = {}
 
     def deviation(iface, plan, wsdl, label, observe, expected, got, detail):
@@ -1969,7 +2009,11 @@ def run_render(ck, unproved):
             plan = Plan(rng, iface, variant=k)
             rk = render(iface, plan)
             wsdl, blocks = rk
-            U.expat_parse(wsdl)                  # the renderer must write well-formed documents
+            bad = rendering_selfcheck(wsdl)      # the renderer must write namespace-well-formed documents
+            if bad:
+                selfcheck_failures.append((bad, wsdl))
+                ck.count("renderings-failing-selfcheck")
+                continue
             tap = DerefTap() if (k == 0 or ck.tier != "quick") else None
             c, err = load_client(wsdl, tap)
             if tap is not None and c is not None:
@@ -2213,6 +2257,11 @@ def run_render(ck, unproved):
 
     for f, n in sorted(feature_count.items()):
         ck.count("renderings-with-" + f, n)
+    if selfcheck_failures:
+        # a bug of this harness' renderer: not a verdict about the implementation
+        raise RuntimeError("renderer self-check failed on %d rendering(s): %s\n%s"
+                           % (len(selfcheck_failures), selfcheck_failures[0][0],
+                              selfcheck_failures[0][1].decode("utf-8")[:3000]))
 
     def judge(label, cases, ctype, spec_ok, agrees=None, shard=40, denot=None, extra=()):
         if not cases:
